@@ -187,7 +187,7 @@ if (comm_t) *comm_t += RAPtor_MPI_Wtime();
     iter = 0;
 
     // the initial guess already meets the tolerance (in particular: it is the solution)
-    if (!(rz_inner > tol)) return;
+    if (!(norm_rz > tol)) return;
 
     // Main CG Loop
     while (iter < max_iter)
@@ -236,7 +236,8 @@ if (comm_t) *comm_t += RAPtor_MPI_Wtime();
         beta = next_inner / rz_inner;
 
         res.emplace_back(next_inner/res_scale);
-        if (next_inner < tol) break;
+        // ||r||_M < tol * ||b||_M : both sides in the same (unsquared) norm
+        if (sqrt(next_inner) < tol) break;
 
         // p_{i+1} = z_{i+1} + beta_i * p_i
         if (full_r)
